@@ -22,6 +22,15 @@ TEXT = {
             "rounding wastes less than one unit. Correspondence: addresses against an independent greedy layout in the harness, "
             "memory_consumption against the ledger's byte counts."),
 }
+TEXT["C13"] = ("Theorems on the comparison model as coded (run tables split at padding, three-iterator std::equal on spans, size check): "
+               "!= is negation; on the element-wise path equality holds exactly for equal field values (given equal field sizes), is "
+               "reflexive and symmetric; vectors of different size are never equal; empty-vector cases. PARTIAL on the proof side: "
+               "soundness of the memcmp-run path (injectivity of the byte encoding across a run) is not yet a theorem; it is covered by the "
+               "correspondence run (all six operators on every operand kind over a two-value domain, junk-filled memory, oracle monitor).")
+TEXT["C14"] = ("Theorems: >, <=, >= are defined from < as the property states; element < and vector < are strict weak orders "
+               "(irreflexive, asymmetric, transitive, incomparability transitive) for every parameter list on both code paths, by a "
+               "generic theorem that lexicographic comparison over a strict weak order is one; vector < on the element-wise path is the "
+               "lexicographical comparison under element <. Correspondence: all operators, operand kinds, triples for transitivity.")
 NOTE = ("Trusted: Lean 4.33 kernel; axioms propext/Classical.choice/Quot.sound only (audited on every run); the correspondence "
         "harness, generator and runner; g++ 12.2 + ASan/UBSan. Modelled, not verified: allocator, value types, std algorithms, "
         "no size_t overflow, user preconditions (DESIGN.md §8).")
